@@ -31,6 +31,9 @@ type specEnv struct {
 	old         *hstate
 	symHeaps    map[string]string // symbolic mode (recursive spec function bodies): heap name -> bound var
 	symOrder    *[]string
+	symOld      map[string]string // symbolic mode: heaps of the old() state
+	symOldOrder *[]string
+	symPrefix   string
 	atBlock     *ssa.BasicBlock
 	phiOverride map[*ssa.Phi]string
 	depth       int
@@ -46,7 +49,11 @@ func (e *specEnv) heap(name, sort string) string {
 		if v, ok := e.symHeaps[name]; ok {
 			return v
 		}
-		v := "h!" + sanitize(name)
+		pfx := e.symPrefix
+		if pfx == "" {
+			pfx = "h!"
+		}
+		v := pfx + sanitize(name)
 		e.symHeaps[name] = v
 		*e.symOrder = append(*e.symOrder, name)
 		if _, ok := e.vc.heapSort[name]; !ok {
@@ -575,7 +582,11 @@ func (e *specEnv) tr(x Expr) specVal {
 		if n.Hi != nil {
 			hi = e.trInt(n.Hi)
 		}
-		return specVal{term: sx("mk-slice", sArr(v.term), sx("+", sOff(v.term), lo), sx("-", hi, lo), sx("-", sCap(v.term), lo)), typ: v.typ}
+		mx := sCap(v.term)
+		if n.Max != nil {
+			mx = e.trInt(n.Max)
+		}
+		return specVal{term: sx("mk-slice", sArr(v.term), sx("+", sOff(v.term), lo), sx("-", hi, lo), sx("-", mx, lo)), typ: v.typ}
 	case *EIs:
 		v := e.tr(n.X)
 		if v.typ == nil {
@@ -628,6 +639,14 @@ func (e *specEnv) call(n *ECall) specVal {
 	}
 	switch n.Fn {
 	case "old":
+		if e.symHeaps != nil && e.symOld != nil {
+			ne := e.clone()
+			ne.symHeaps = e.symOld
+			ne.symOrder = e.symOldOrder
+			ne.symPrefix = "ho!"
+			ne.symOld = nil
+			return ne.tr(n.Args[0])
+		}
 		if e.old == nil {
 			e.fail("old() not available here")
 		}
@@ -659,6 +678,10 @@ func (e *specEnv) call(n *ECall) specVal {
 		return mathInt(sArr(arg(0).term))
 	case "off":
 		return mathInt(sOff(arg(0).term))
+	case "bcell":
+		// bcell(a, p): byte at absolute position p of byte array a (robust under re-slicing)
+		h := e.heap("E.byte", "(Array Int (Array Int Int))")
+		return specVal{term: sx("select", sx("select", h, e.trInt(n.Args[0])), e.trInt(n.Args[1])), typ: types.Typ[types.Byte]}
 	case "wrap64":
 		return mathInt(sx("wrap_s64", e.trInt(n.Args[0])))
 	case "wrapu8":
@@ -759,7 +782,7 @@ func (e *specEnv) specCall(sf *SpecFn, n *ECall) specVal {
 		args = append(args, a)
 	}
 	if !sf.Rec {
-		ne := &specEnv{vc: vc, fr: nil, pkg: pkg, vars: map[string]specVal{}, st: e.st, old: e.old, symHeaps: e.symHeaps, symOrder: e.symOrder, depth: e.depth + 1, where: e.where + ">" + sf.Name}
+		ne := &specEnv{vc: vc, fr: nil, pkg: pkg, vars: map[string]specVal{}, st: e.st, old: e.old, symHeaps: e.symHeaps, symOrder: e.symOrder, symOld: e.symOld, symOldOrder: e.symOldOrder, symPrefix: e.symPrefix, depth: e.depth + 1, where: e.where + ">" + sf.Name}
 		for i, p := range sf.Params {
 			a := args[i]
 			if p.Typ != "mathint" && p.Typ != "int" {
